@@ -311,3 +311,84 @@ Fixpoint nodupb (l : list bytes) : bool :=
 
 (* the round-trip domain *)
 Definition wf_struct (fs : fields) : bool := fields_ok fs && nodupb (flat_names fs).
+
+(* ---- the key of a field: how each of the two sites reads the `form` tag ----
+   setStructToForm (Marshal) and mapFormToStruct (Unmarshal) each call
+   typeField.Tag.Get(NAME_FORM) on their own and use the WHOLE value as the key: the codec has no
+   option syntax, the tag `form:"name,omitempty"` means the key "name,omitempty" on both sides.
+   A [tag_reader] is what a site makes of the value of Tag.Get before it decides "empty: recurse
+   into a struct / fall back to the field name" and before it indexes the map.  [whole_tag] is the
+   reader of BOTH sites of /repo; [cut_comma] is the reader of encoding/json and friends (the name
+   ends at the first comma).  The functions below are setStructToForm / mapFormToStruct with the
+   reader made explicit, so that "the two sites use the same key" is a statement about the model
+   and not a by-product of sharing one definition. *)
+Definition tag_reader := bytes -> bytes.
+
+Definition whole_tag : tag_reader := fun t => t.
+
+Fixpoint cut_comma (t : bytes) : bytes :=
+  match t with
+  | [] => []
+  | b :: r => if beqb b ","%byte then [] else b :: cut_comma r
+  end.
+
+(* form_codec.go:setStructToForm, the tag read through [tr] *)
+Fixpoint set_fields_k (tr : tag_reader) (q : values) (fs : fields) : values :=
+  match fs with
+  | FNil => q
+  | FCons name tag _ v rest =>
+      let q' :=
+        match tr tag, v with
+        | [], FStruct sub => set_fields_k tr q sub
+        | t, _ => vappend_all q (eff_name name t) (fmt_field (fun es => es) v)
+        end in
+      set_fields_k tr q' rest
+  end.
+
+(* form_codec.go:mapFormToStruct, the tag read through [tr] *)
+Fixpoint map_fields_k (tr : tag_reader) (form : values) (fs : fields) : outcome fields :=
+  match fs with
+  | FNil => Ok FNil
+  | FCons name tag exported v rest =>
+      let continue := fun v' => omap (FCons name tag exported v') (map_fields_k tr form rest) in
+      if negb exported then continue v
+      else
+        match tr tag, v with
+        | [], FStruct sub => obind (map_fields_k tr form sub) (fun sub' => continue (FStruct sub'))
+        | t, _ =>
+            match vget form (eff_name name t) with
+            | None => continue v
+            | Some vals => obind (set_field_gen (Ok []) v vals) continue
+            end
+        end
+  end.
+
+(* FormCodec.Marshal / Unmarshal of a struct, the sites reading the tag through [tr] *)
+Definition form_marshal_struct_k (tr : tag_reader) (fs : fields) : bytes :=
+  values_encode (set_fields_k tr [] fs).
+
+Definition form_unmarshal_struct_k (tr : tag_reader) (data : bytes) (fs : fields) : outcome fields :=
+  match parse_query data with
+  | None => Err
+  | Some form => map_fields_k tr form fs
+  end.
+
+(* the struct as a site reading through [tr] sees it: every tag replaced by what the site reads *)
+Fixpoint retag (tr : tag_reader) (fs : fields) : fields :=
+  match fs with
+  | FNil => FNil
+  | FCons name tag e v rest =>
+      FCons name (tr tag) e
+        (match v with FStruct sub => FStruct (retag tr sub) | _ => v end)
+        (retag tr rest)
+  end.
+
+(* the two readers make the same thing of every tag that occurs in the struct *)
+Fixpoint tags_agree (tr1 tr2 : tag_reader) (fs : fields) : bool :=
+  match fs with
+  | FNil => true
+  | FCons _ tag _ v rest =>
+      bytes_eqb (tr1 tag) (tr2 tag) &&
+      (match v with FStruct sub => tags_agree tr1 tr2 sub | _ => true end) &&
+      tags_agree tr1 tr2 rest
+  end.
